@@ -808,7 +808,7 @@ def kernel_sig(repo, res):
 
 @rule(
     "EXPR-COEF-POS",
-    ["C04", "C05"],
+    ["C04", "C05", "C08"],
     "_compute_expression_ir receives (processed expression, points, original expression), built in that order by "
     "analyze_ufl_objects. original_coefficient_positions must hold, for every coefficient of the *processed* "
     "expression in its numbering order, its index among the coefficients of the *original* expression "
@@ -884,6 +884,21 @@ def expr_coef_pos(repo, res):
         res.ob(key)
         if not re.search(r"\['original_coefficient_positions'\] = original_coefficient_positions\b", ast.unparse(g.node)):
             res.fail(key, "the computed positions are not what is stored in the IR", rep.line(g.node))
+        # offsets of the coefficients inside w: exclusive prefix sum over the PROCESSED coefficients (what the caller packs)
+        key = f"{g.key}:coefficient-offsets"
+        res.ob(key)
+        mo = re.search(r"base_ir\['coefficient_offsets'\] = (\w+)\b", ast.unparse(g.node))
+        if not mo:
+            raise AnalysisError("_compute_expression_ir: base_ir['coefficient_offsets'] store not found")
+        off = _positions_by_slice(repo, g, mo.group(1))
+        if off is None:
+            raise AnalysisError("_compute_expression_ir: coefficient offsets slice not interpretable")
+        goto = off[0]
+        pairs = sorted((k.f.get("name"), v) for k, v in goto.items()) if isinstance(goto, dict) else goto
+        if pairs != [("B", 0), ("C", 3)]:
+            res.fail(key, f"for processed coefficients [B (dim 3), C (dim 4)] of an original expression [A (dim 6), B, C] the offsets into w are {pairs}, expected "
+                     "B->0, C->3: the descriptor tells the caller to pack only the surviving coefficients, so any other layout reads outside / the wrong part of w",
+                     rep.line(g.node), props=("C04", "C05", "C08"))
         return
     # (2) structural fallback: the append site
     app = [c for c in calls_in(g.node) if (call_name(c) or "") == "original_coefficient_positions.append"]
@@ -1061,7 +1076,10 @@ def _positions_by_slice(repo, g, target="original_coefficient_positions"):
                                           and isinstance(st.targets[0].value, ast.Name) and st.targets[0].value.id in ("ir", "base_ir"))]
     if not chosen:
         return None
-    A, B, C = Node("Coefficient", name="A"), Node("Coefficient", name="B"), Node("Coefficient", name="C")
+    elA, elB, elC = Node("Element", name="elA", dim=6), Node("Element", name="elB", dim=3), Node("Element", name="elC", dim=4)
+    A = Node("Coefficient", name="A", ufl_element=_PyCall(lambda: elA))
+    B = Node("Coefficient", name="B", ufl_element=_PyCall(lambda: elB))
+    C = Node("Coefficient", name="C", ufl_element=_PyCall(lambda: elC))
     processed, original = Node("UflExpr", name="processed"), Node("UflExpr", name="original")
     it = Interp(repo, load_classes(repo), primary="ffcx.ir.representation")
 
@@ -1075,7 +1093,8 @@ def _positions_by_slice(repo, g, target="original_coefficient_positions"):
     it.overrides["ufl.algorithms.extract_coefficients"] = _PyCall(extract)
     it.overrides["ufl.algorithms.analysis.extract_coefficients"] = _PyCall(extract)
     it.overrides["extract_coefficients"] = _PyCall(extract)
-    env = {g.params[0]: (processed, Node("ndarray", shape=(1, 2), size=2), original), "ir": {}, "base_ir": {}}
+    env = {g.params[0]: (processed, Node("ndarray", shape=(1, 2), size=2), original), "ir": {}, "base_ir": {},
+           "analysis": Node("UFLData", unique_elements=[elA, elB, elC])}
     it.ctx.append(g.module)
     try:
         try:
